@@ -176,6 +176,13 @@ class DataView(object):
         self.base = base
 
 
+class MaskView(object):
+    """`arr.mask` read: the mask of the array behind `base` as an ND bool array (A-NOMASK: `nomask` = all False)."""
+
+    def __init__(self, base):
+        self.base = base
+
+
 class Idx(object):
     """Index tuple from numpy.where(cond) / boolean ND index: cond(c) -> z3 Bool."""
 
@@ -191,7 +198,10 @@ class Idx(object):
 class StackState(object):
     """vstack/stack of n layers over the inputs' cell space."""
 
-    def __init__(self, n, shape, layer, miss, kind="ND", sorted_=False, ok=True):
+    def __init__(self, n, shape, layer, miss, kind="ND", sorted_=False, ok=True, origin=None, lo=None, hi=None, is_mask=False):
+        self.origin = origin  # ('fam', fid) when layer k is the stored column of input family fid
+        self.lo, self.hi = lo, hi  # slice bounds (z3 Int) when this is stack[lo:hi]
+        self.is_mask = is_mask
         self.n = n
         self.shape = shape
         self.layer = layer  # (k, c) -> Real
